@@ -189,7 +189,7 @@ def run(ctx):
                     ctx.judged("line-number-invariant:" + cls, (data, cls, pos, "inv"))
 
     fmts = ["fasta2", "fastq", "bed3", "bed6", "bdg", "narrowpeak", "sam", "vcf"]
-    for i in range(ctx.share(ctx.pick(30 * len(fmts), 300 * len(fmts)))):
+    for i in range(ctx.share(ctx.pick(30 * len(fmts), 60 * len(fmts)))):
         ctx.run_case(one, {"fmt": fmts[i % len(fmts)], "seed": rng.randrange(2 ** 40)})
     ctx.sample({"format": "fastq", "class": "plus", "record": 1, "data": "@a\nAC\n+\n!!\n@b\nG\nx\n#\n", "expected": "every configuration raises; FormatException.line_number in 4..7 and equal everywhere"})
     ctx.floor("format_exceptions", ctx.pick(300, 5000))
